@@ -116,7 +116,20 @@ func (c *Ctx) Mine(i int) bool { return i%c.NShards == c.Shard }
 func (c *Ctx) Begin(desc func() interface{}) {
 	atomic.AddInt64(&c.progress, 1)
 	c.cur.Store(desc)
+	if traceCaseFile != "" {
+		// crash-attribution rerun: the case is written out BEFORE it is executed, so that it survives a
+		// fatal runtime error (stack overflow, concurrent map writes, out of memory) that kills the process
+		func() {
+			defer func() { recover() }()
+			if b, err := json.Marshal(desc()); err == nil {
+				os.WriteFile(traceCaseFile, b, 0o644)
+			}
+		}()
+	}
 }
+
+// traceCaseFile (env VERIF_TRACE_CASE) makes Begin write every case to that file before it runs.
+var traceCaseFile = os.Getenv("VERIF_TRACE_CASE")
 
 // Eval counts one evaluated case; key identifies its outcome class for the distinct count.
 func (c *Ctx) Eval(key string) {
@@ -231,6 +244,17 @@ func (c *Ctx) Violation(sig, detail string, replayCase interface{}, recheck func
 	}
 	path := c.writeReplay(sig, detail, replayCase)
 	c.rep.Violations = append(c.rep.Violations, Violation{Sig: sig, Detail: trunc(detail, 600), Replay: path, Flaky: flaky})
+}
+
+// fatalLine extracts the Go runtime's "fatal error: ..." line (or an unrecovered panic / kill signal) from a worker's output.
+func fatalLine(stderr string) string {
+	for _, l := range strings.Split(stderr, "\n") {
+		l = strings.TrimSpace(l)
+		if strings.HasPrefix(l, "fatal error:") || strings.HasPrefix(l, "runtime: goroutine stack exceeds") {
+			return strings.TrimPrefix(l, "fatal error: ")
+		}
+	}
+	return ""
 }
 
 func trunc(s string, n int) string {
@@ -365,6 +389,7 @@ func PanicSite(stack string) string {
 
 // WorkerMain runs one shard of a property in this process.
 func WorkerMain(id, tier string, shard, nshards int, out string) int {
+	debug.SetMaxStack(96 << 20) // a runaway recursion in the code under test ends in the runtime's fatal error quickly (attributed to its case by the parent)
 	p := registry[id]
 	if p == nil {
 		fmt.Fprintf(os.Stderr, "unknown property %s\n", id)
@@ -505,6 +530,32 @@ func ParentMain(id, tier string) int {
 					r.code = 2
 				}
 				r.err += " (no worker report)"
+				// The worker died without a report. If the Go runtime killed it (fatal error: stack overflow,
+				// concurrent map writes, out of memory ...), run the shard once more with every case written
+				// out before it is executed, and report the case it dies in as a violation.
+				if fatal := fatalLine(stderr.String()); fatal != "" {
+					tf := filepath.Join(tmp, fmt.Sprintf("trace%d.json", i))
+					cmd2 := exec.Command(self, "worker", id, tier, strconv.Itoa(i), strconv.Itoa(n), out)
+					cmd2.Env = append(os.Environ(), "GOMAXPROCS=2", "VERIF_TRACE_CASE="+tf)
+					var se2 strings.Builder
+					cmd2.Stderr, cmd2.Stdout = &se2, &se2
+					err2 := cmd2.Run()
+					cb, cerr := os.ReadFile(tf)
+					if err2 != nil && cerr == nil && fatalLine(se2.String()) != "" {
+						var cs interface{}
+						json.Unmarshal(cb, &cs)
+						sig := "process-killed:" + fatalLine(se2.String())
+						rb, _ := json.MarshalIndent(map[string]interface{}{"property": id, "signature": sig, "detail": trunc(se2.String(), 3000), "case": cs}, "", " ")
+						dir := filepath.Join(OutDir, "replays", id)
+						os.MkdirAll(dir, 0o755)
+						rp := filepath.Join(dir, fmt.Sprintf("killed-%d.json", i))
+						os.WriteFile(rp, rb, 0o644)
+						r.rep = Report{Counters: map[string]int64{}, Maxima: map[string]int64{}, SigCounts: map[string]int64{sig: 1},
+							Violations: []Violation{{Sig: sig, Detail: "the Go runtime killed the process inside this case: " + trunc(se2.String(), 500), Replay: rp}},
+							NotExh:     []string{"worker killed by the Go runtime: " + fatalLine(se2.String())}}
+						r.code, r.err = 0, ""
+					}
+				}
 			}
 			results[i] = r
 		}(i)
